@@ -216,7 +216,7 @@ class FnTr:
             return self.membercall(n, env)
         if k == 'CXXOperatorCallExpr':
             return self.opcall(n, env)
-        if k == 'CXXConstructExpr':
+        if k in ('CXXConstructExpr', 'CXXTemporaryObjectExpr'):   # (additive) `T(a, b)` as a temporary: same as a constructor call
             if len(inner) == 1:
                 e, t = self.expr(inner[0], env)
                 tt = self.ctx.map_type(qt(n))
@@ -868,12 +868,45 @@ class FnTr:
             return self.ret_value(e, t, env)
         if kind == 'IfStmt':
             return self.ifstmt(s, env, k)
+        if kind == 'SwitchStmt':
+            return self.stmt(self.switch_as_ifs(s), env, k)
         if kind == 'ForStmt':
             return self.forstmt(s, env, k)
         if kind in ('BinaryOperator', 'CompoundAssignOperator', 'UnaryOperator', 'ParenExpr', 'ExprWithCleanups',
                     'CallExpr', 'CXXOperatorCallExpr', 'CXXMemberCallExpr', 'ImplicitCastExpr'):
             return self.exprstmt(s, env, k)
         self.bad('statement kind ' + str(kind))
+
+    def switch_as_ifs(self, s):
+        """(additive) restricted `switch`: the body is a list of `case C: return e;` (one label per case, no fall-through, no break) and an
+        optional trailing `default: stmt`; rewritten into the equivalent chain `if (x == C1) return e1; else if ...; else stmt`."""
+        kids = [c for c in s.get('inner', []) if isinstance(c, dict) and c.get('kind')]
+        if len(kids) != 2 or kids[1].get('kind') != 'CompoundStmt':
+            self.bad('switch with an init / condition variable or a non-compound body')
+        cond, body = kids
+        cases, default = [], None
+        for c in body.get('inner', []):
+            ck = c.get('kind')
+            if default is not None:
+                self.bad('switch: statements after the default label')
+            if ck == 'CaseStmt':
+                lab, sub = c['inner'][0], c['inner'][-1]
+                if len(c['inner']) != 2 or sub.get('kind') != 'ReturnStmt':
+                    self.bad('switch: a case that is not `case C: return e;` (fall-through, break or range)')
+                while lab.get('kind') == 'ConstantExpr':
+                    lab = lab['inner'][0]
+                cases.append((lab, sub))
+            elif ck == 'DefaultStmt':
+                default = c['inner'][-1]
+            else:
+                self.bad('switch: statement kind %s between the labels' % ck)
+        node = default
+        for lab, sub in reversed(cases):
+            test = {'kind': 'BinaryOperator', 'opcode': '==', 'type': {'qualType': 'bool'}, 'inner': [cond, lab]}
+            node = {'kind': 'IfStmt', 'inner': [test, sub] + ([node] if node is not None else [])}
+        if node is None:
+            self.bad('empty switch')
+        return node
 
     def strip_casts(self, n):
         while n.get('kind') in ('ImplicitCastExpr', 'ParenExpr', 'ExprWithCleanups', 'MaterializeTemporaryExpr'):
